@@ -173,8 +173,8 @@ func TestC14Edits(t *testing.T) {
 		model := &mSchema{}
 
 		typePool := []string{"a", "b", "ab", "c", "", "a_b", "a-b"}
-		attrPool := []string{"x", "y", "xy", "r", ""}
-		relPool := []string{"r", "s", "rs", "a_b", "x", ""}
+		attrPool := []string{"x", "y", "xy", "r", "", "prix€"}
+		relPool := []string{"r", "s", "rs", "a_b", "x", "", "m²"}
 
 		history := []string{}
 		failedEdits, nonLastRemovals, twoWayNonNormal := 0, 0, 0
